@@ -75,6 +75,13 @@ pub fn run(r: &mut Report) {
     let dis = vec![ArtifactRule::Disallow(VirtualTargetPath::new("*".into()).unwrap())];
     let (res, _, _) = run_case(StepFault::None, inspection("insp", &["touch", "marker"], allow_all(), dis.clone()));
     r.case("inspection-product-rule-enforced", json!({"expected_products": "DISALLOW *", "run": "touch marker"}), "Err", format!("verdict_ok={:?}", res), matches!(res, Ok(false)));
+    // .. also when the inspection shares its name with a step (rules are looked up by name: the inspection's own recording must be what is checked)
+    let allow_x_only = vec![ArtifactRule::Allow(VirtualTargetPath::new("x".into()).unwrap()), ArtifactRule::Disallow(VirtualTargetPath::new("*".into()).unwrap())];
+    let (res, _, _) = run_case(StepFault::None, inspection("a", &["touch", "marker"], allow_all(), allow_x_only));
+    r.case("inspection-rule-enforced-when-named-like-a-step", json!({"inspection": "a", "step": "a (its link records product x)", "expected_products": "ALLOW x; DISALLOW *", "run": "touch marker"}), "Err",
+           format!("verdict_ok={:?}", res), matches!(res, Ok(false)));
+    let (res, _, _) = run_case(StepFault::None, inspection("a", &["false"], allow_all(), allow_all()));
+    r.case("nonzero-exit-is-fatal-when-named-like-a-step", json!({"inspection": "a", "step": "a", "run": ["false"]}), "Err", format!("verdict_ok={:?}", res), matches!(res, Ok(false)));
     let (res, _, _) = run_case(StepFault::None, inspection("insp", &["sh", "-c", "echo x > pre; true"], allow_all(), allow_all()));
     r.case("inspection-allow-all", json!({}), "Ok", format!("verdict_ok={:?}", res), matches!(res, Ok(true)));
 }
